@@ -80,7 +80,7 @@ func genDAG(r *rng, n int, s *summary) *pipeline {
 			st.ins = append(st.ins, src)
 			st.srcs = append(st.srcs, src)
 		}
-		if i > 0 && k == 0 && r.chance(1, 6) {
+		if k == 0 && r.chance(1, 5) {
 			// a stage with a command and no inputs: always runs
 			st.ins, st.srcs = nil, nil
 			s.count("stage:no-inputs")
@@ -89,6 +89,23 @@ func genDAG(r *rng, n int, s *summary) *pipeline {
 		pl.stages = append(pl.stages, st)
 	}
 	return pl
+}
+
+// a stage with a command and no inputs (always runs) whose output another stage consumes
+func (pl *pipeline) sourceWithDownstream() bool {
+	for _, a := range pl.stages {
+		if len(a.ins) != 0 || a.noCmd {
+			continue
+		}
+		for _, b := range pl.stages {
+			for _, in := range b.ins {
+				if in == a.out || in == a.dst {
+					return true
+				}
+			}
+		}
+	}
+	return false
 }
 
 func dedup(l []string) []string {
@@ -204,6 +221,9 @@ func onePipe(o *opts, r *rng, s *summary, i int, pl *pipeline, distinct map[stri
 		t.Info["step"] = step
 		t.Info["stages"] = len(pl.stages)
 		t.Info["cyclic"] = pl.cyclic
+		if pl.sourceWithDownstream() {
+			t.Info["downstream_of_a_stage_without_inputs"] = true
+		}
 		ts = append(ts, t)
 		if len(pl.stages) >= 2 {
 			distinct[fmt.Sprintf("%d|%s|%s", i, step, t.Pre.Root.coq())] = true
